@@ -221,6 +221,9 @@ func Run(c *common.Ctx) error {
 	if pl.huge, err0 = mk(500, 130000, largeLen); err0 != nil {
 		return err0
 	}
+	if pl.sentinel, err0 = mk(600, 4, smallLen); err0 != nil {
+		return err0
+	}
 	c.Note("bundles: real CRLs (x509.CreateRevocationList), identified by content (base CRL id, delta CRL id); small ~%d B, medium ~%d B and large ~%d B cache files (kill-during-write: ~%d B).",
 		pl.small[0].fileSize, pl.medium[0].fileSize, pl.large[0].fileSize, pl.huge.fileSize)
 	r := &runner{c: c, pool: pl, ca: ca}
@@ -472,6 +475,10 @@ func Run(c *common.Ctx) error {
 	if err = r.readAcrossStore(); err != nil {
 		return err
 	}
+	// (j) the cache path re-pointed to another directory between the creation of FileCache values
+	if err = r.repointedPath(all2); err != nil {
+		return err
+	}
 	// (c) free-running goroutines and processes - supporting evidence
 	if err = r.freeAlternating(); err != nil {
 		return err
@@ -491,6 +498,7 @@ func Run(c *common.Ctx) error {
 	c.Note("big entries: bundles of 20 MiB, 14+14 MiB (base+delta) and 26 MiB DER in quick, plus 1 KiB, 1 MiB, 8 MiB and 31 MiB in thorough (the fetcher accepts CRLs up to 32 MiB; the entry is JSON with base64, x4/3): stored by a stepped writer and read back complete by both FileCache instances after every step.")
 	c.Note("future-dated bundles: base and / or delta CRL with thisUpdate 1-3 s, 5 min, 3 days ahead of the reader's clock (CA clock ahead, pre-generated CRLs) and exactly now, as first store and replacing a complete entry: the Get after the completed Set returns that bundle (not an error, not a miss).")
 	c.Note("read across a store: one FileCache value, reader R1 is inside a slow Get of a big old entry, Set(url, newer) runs and returns, then R2 starts its Get while R1 is still busy: R2 must return the newer bundle (R1: old or new); several delays and old-entry sizes.")
+	c.Note("re-pointed cache path: in every 7th experiment the root is a symbolic link that is switched (atomically) to a fresh directory, in another 7th the root directory is renamed away and recreated - after the FileCache value used by the in-process writers / get events was created (and had stored a sentinel bundle in the old directory) and before the probes' FileCache value and the child processes are created; dedicated histories do the same with a relative root and a chdir. The cache is addressed by its PATH: all of them must meet in the directory the path denotes now.")
 	c.Note("write faults: child-process writer with RLIMIT_FSIZE 0 / 1 / half the entry / 4096 (SIGXFSZ ignored, the writer keeps running), small and large entries, with and without an existing entry, alone and interleaved with a goroutine writer: key absent or complete (old or new), Set reports the error iff its write failed.")
 	c.Note("free-running goroutines and processes: supporting evidence only (the model cannot predict which allowed result a free Get sees; 'agree' there means every result is one the model allows).")
 	return nil
@@ -1412,6 +1420,65 @@ func (r *runner) readAcrossStore() error {
 					r.c.Count("read-across-store=earlier-reader-already-done")
 				}
 				w.cleanup()
+			}
+		}
+	}
+	return nil
+}
+
+// repointedPath: stores and reads through FileCache values created before and after the cache path
+// was re-pointed (symlink switched / directory renamed and recreated / relative path and chdir),
+// in both directions, and through a child process started afterwards.
+func (r *runner) repointedPath(all2 [][]int) error {
+	for _, fl := range []int{symlinkSwitched, renamedRecreated, relativeChdir} {
+		variants := 4
+		if r.c.Thorough() {
+			variants = 16
+		}
+		for v := 0; v < variants; v++ {
+			// writer 0: goroutine (old FileCache value); writer 1: child process (new); writer 2: goroutine
+			plans := []wplan{{key: 0}, {key: 0, child: true}, {key: 0, large: v%4 == 3}}
+			var order []int
+			gets := map[int][]int{}
+			if v%2 == 0 { // sequential, a Get (old value) after every completed Set
+				for i := 0; i < 3; i++ {
+					order = append(order, i, i, i, i)
+					gets[4*(i+1)] = []int{0}
+				}
+			} else { // the first two overlap
+				o := all2[(v*13+fl*5)%len(all2)]
+				order = append(order, o...)
+				order = append(order, 2, 2, 2, 2)
+				gets[8], gets[12] = []int{0}, []int{0}
+			}
+			for attempt := 0; ; attempt++ {
+				w, err := newWorldFlavour(r.c, r.pool, 1, plans, fl)
+				if err != nil {
+					return err
+				}
+				evs := trace(w, full(3), order, gets)
+				obs, dev, err := runSchedule(w, evs)
+				if err == errAbandoned {
+					w.cleanup()
+					if attempt < 2 {
+						continue
+					}
+					if err := r.abandon("scheduler-timeout"); err != nil {
+						return err
+					}
+					break
+				}
+				if err != nil {
+					w.cleanup()
+					return err
+				}
+				r.c.Emit(w.input(false, evs), obs)
+				w.cleanup()
+				r.c.Count("experiment=repointed-path:" + flavourName[fl])
+				if dev > 0 {
+					r.c.Count("hook-deviations")
+				}
+				break
 			}
 		}
 	}
